@@ -240,6 +240,8 @@ def fill(template, leaves):
         return {k: fill(v, leaves) for k, v in template.items()}
     if isinstance(template, list):
         return [fill(v, leaves) for v in template]
+    if isinstance(template, tuple):
+        return tuple(fill(v, leaves) for v in template)
     return template
 
 
